@@ -29,7 +29,7 @@ def gate_pool(nq):
         out.append(("CX", (a, b), None))
         out.append(("CZ", (a, b), None))
         out.append(("Swap", (a, b), None))
-        for th in (math.pi / 4, math.pi / 2, 2 * math.pi / 8, 1.0):
+        for th in (math.pi / 4, math.pi / 2, 2 * math.pi / 8, 1.0, 0.0):
             out.append(("CP", (a, b), th))
     for p3 in itertools.permutations(range(nq), 3):
         out.append(("CCX", p3, None))
@@ -227,7 +227,7 @@ def qasm_check(qc, version, mode):
             return f"operand {ops} is not a formal parameter", text
         if idx != list(w):
             return f"gate {g.name} on qubits {list(w)} printed on formal parameters number {idx} (parameter i must be qubit i)", text
-        if p is not None and p != 0:
+        if p is not None:
             if par is None:
                 return f"parameter {p!r} not printed", text
             if abs(float(par) - p) > 1e-9:
